@@ -7,7 +7,7 @@ CONSTANTS
   Strict = TRUE
   Breaker = TRUE
   RejectKinds = {"open", "limit"}
-  CancelSet <- CancelFree
+  CancelSet <- CancelNever
   CtxKinds = {"cancel", "deadline"}
   KeepSeen = FALSE
   BudgetSet = {0}
